@@ -23,7 +23,7 @@ def units(tier):
                                   "finite (op) finite is exact on the ghost value"],
              assumptions=["finite x finite double dispatch and 'float op finite never returns an exact number' are not covered",
                           "RealDouble/ComplexDouble operands hold finite values"])
-    return [u, float_unit()]
+    return [u, float_unit(), pred_unit()]
 
 FTOK = [R('RCP<const Number>', 'RCPNumber', n='*', why="RCP<const Number> -> raw pointer typedef"),
         R(r'make_rcp<const (\w+)>\(', r'mk_\1(', n='*', regex=True, why="make_rcp<T>(...) -> stub constructor recording the class of the result"),
@@ -47,7 +47,26 @@ def float_unit():
                          "the exact classes forward x.op(float) to float.op/rop(x) (integer.h, rational.h, complex.h: not under contract)"],
                 assumptions=["values of floating-point results are not judged (C12 territory); pow/rpow of the float classes are not under contract"])
 
+def pred_unit(prop='C06'):
+    OV = [R(r'\) const override\b', ') const', n='*', regex=True, why="'override' is rejected by the front end")]
+    blk = r'\s*\{[\s\S]*?\n    \}'
+    ip = Piece('symengine/integer.h', r'^    inline bool is_zero\(\) const override', region_end=r'inline bool is_complex\(\) const override' + blk, rules=OV,
+               name='Integer: is_zero .. is_complex [one verbatim region of the class body]')
+    rp = Piece('symengine/rational.h', r'^    bool is_zero\(\) const override', region_end=r'inline bool is_negative\(\) const override' + blk, rules=OV,
+               name='Rational: is_zero .. is_negative [one verbatim region of the class body]')
+    rc = Piece('symengine/rational.h', r'^    inline bool is_complex\(\) const override', region_end=r'return false;\s*\}', rules=OV, name='Rational::is_complex')
+    d1 = Piece('symengine/real_double.h', r'^    inline bool is_positive\(\) const override', region_end=r'inline bool is_negative\(\) const override' + blk, rules=OV,
+               name='RealDouble: is_positive, is_negative')
+    d2 = Piece('symengine/real_double.h', r'^    bool is_zero\(\) const override', region_end=r'bool is_complex\(\) const override' + blk, rules=OV,
+               name='RealDouble: is_zero .. is_complex')
+    return Unit('sign_predicates', prop, 'contracts/C06/signpred.cpp', {'integer_pred.inc': [ip], 'rational_pred.inc': [rp, rc], 'realdouble_pred.inc': [d1, d2]},
+                [Entry('h_sign_predicates', route='F', timeout=120, defines={'PFX': '"%s"' % prop}, label='h_sign_predicates', bounds="every 64-bit integer, every canonical rational over two machine words, every double bit pattern")], route='F',
+                trusted=["integer_class / rational_class comparisons with 0, 1, -1 are those of the mathematical value (GMP); a canonical rational has a positive denominator"],
+                assumptions=["Complex, ComplexDouble, Infty (proved under unit infnan) and NaN predicates are not in this unit"])
+
 def replay_args(obl, inputs, res):
+    if 'predicates' in obl:
+        return [obl] + ['D.i=%s' % inputs['D.i'].get('binary')] if 'D.i' in inputs else [obl]
     if 'float_op_finite' in obl:
         e = res.get('_e'); d = e.defines if e else res.get('defines', {})
         return [obl, 'FLOATCLS=%s' % d.get('FLOATCLS', 3)] + (['kf=1'] if res.get('_nokf') else []) + ['%s=%s' % (k, inputs[k].get('data')) for k in ('kb', 'op', 'BI.zero_') if k in inputs]
